@@ -15,7 +15,12 @@ Extends `harness.sim.scenario.Sim` locally (nothing in harness/sim is modified):
    - `ChangingRegistry.prematch/requires_finalizer`, `SpawningRegistry.requires_finalizer`: their results;
    - `processing.process_changing_cause`: entry time;
    - every API request is tagged with the worker cycle that issued it (None: daemons/timers/others);
-   - `daemons.daemon_killer`: only to get hold of the operator's `operator_paused` ToggleSet (as C09 does).
+   - `daemons.daemon_killer`: only to get hold of the operator's `operator_paused` ToggleSet (as C09 does);
+   - `processing.process_resource_event` (outside observe's wrapper): what `memory.remaining_patch` carries when the
+     cycle begins (the labels of the scripted transformation functions) and the label the object shows — whether the
+     carried functions still have something to do is decided here from the script's semantics, not by kopf's code;
+   - the delays `process_spawning_cause`, `process_changing_cause` and `process_resource_causes` return (what the
+     last one returns beyond the delays of the two stages is the waiting delay of fix 30557a0).
  * pausing (what the peering does to a lower-priority operator; here a toggle of our own in that set):
    timeline ops `[t, "pause"]` / `[t, "resume"]`, and `sc["c07"]["pauses"]`: [{"on": "write" | "sleep" | "barrier",
    "nth": n, "anchor": "start" | "deadline", "plan": [[ticks, on?], ...]}] — relative to the n-th own write, the n-th
@@ -28,6 +33,7 @@ from __future__ import annotations
 
 import asyncio
 import contextlib
+import contextvars
 import copy
 import json
 import os
@@ -106,6 +112,7 @@ class Sim07(scenario.Sim):
                 if p is not None:
                     def fn(body: Any, label: str = label) -> None:
                         body.setdefault("metadata", {}).setdefault("labels", {})["c07fn"] = label
+                    fn.c07_label = label  # type: ignore[attr-defined]
                     p.fns.append(fn)
                 action = action[2] if len(action) > 2 else "ok"
             return await orig_perform(action, rec, kwargs)
@@ -263,6 +270,8 @@ def installed07(sim: Sim07) -> Iterator[None]:
         raise RuntimeError("an unobservable attribute of kopf._core.reactor.processing was called by the harness")
 
     orig_worker = queueing.worker
+    orig_pre = processing.process_resource_event                            # observe's wrapper (installed before us)
+    carried_var: contextvars.ContextVar[dict | None] = contextvars.ContextVar("verif_c07_carried", default=None)
     orig_prc = getattr(processing, "process_resource_causes", _absent)
     orig_pcc = getattr(processing, "process_changing_cause", _absent)       # observe's wrapper (installed before us)
     orig_pwc = getattr(processing, "process_watching_cause", _absent)
@@ -328,6 +337,30 @@ def installed07(sim: Sim07) -> Iterator[None]:
             life["t_end"] = loop.time()
             life.pop("in_get", None)
 
+    async def process_resource_event(**kw: Any) -> Any:
+        # What the cycle starts with: the transformations carried over from a rejected (422) JSON-patch, and whether
+        # they still have anything to do on the object as the event shows it. All scripted functions set the label
+        # `c07fn` (the last one wins): they yield an operation iff the object does not show that label already.
+        info: dict[str, Any] = {"carried": None, "ops": None}
+        try:
+            raw_body = kw["raw_event"]["object"]
+            m = kw["memories"]._items.get(raw_body.get("metadata", {}).get("uid") or "")
+            rp = m.remaining_patch if m is not None else None
+            info["carried"] = rp is not None
+            if rp is not None:
+                labels = [getattr(f, "c07_label", None) for f in rp.fns]
+                shown = ((raw_body.get("metadata") or {}).get("labels") or {}).get("c07fn")
+                info["labels"], info["shown"] = labels, shown
+                if labels and all(l is not None for l in labels) and not dict(rp):
+                    info["ops"] = labels[-1] != shown
+        except Exception as e:  # noqa: BLE001
+            info["error"] = repr(e)
+        tok = carried_var.set(info)
+        try:
+            return await orig_pre(**kw)
+        finally:
+            carried_var.reset(tok)
+
     async def process_resource_causes(**kw: Any) -> Any:
         rec = cyc.get()
         if rec is None:
@@ -339,7 +372,9 @@ def installed07(sim: Sim07) -> Iterator[None]:
                             "reqfin": [], "patch_mid_empty": None, "blocked": None, "ongoing": None, "pressure_mid": None,
                             "t_mid": None, "sleep": None, "pcc_t": None, "matched": None, "t_out": None,
                             "paused_in": None, "paused_mid": None, "t_watch0": None, "t_watch1": None,
-                            "t_spawn0": None, "t_spawn1": None, "mid_at": None}
+                            "t_spawn0": None, "t_spawn1": None, "mid_at": None,
+                            "carried": carried_var.get(), "spawn_delays": None, "changing_delays": None, "delays_out": None,
+                            "remaining_at_entry": getattr(kw.get("memory"), "remaining_patch", None) is not None}
         op = kw.get("operator_paused")
         inf["paused_in"] = bool(op.is_on()) if op is not None else None
         rec["_patch"] = kw["patch"]
@@ -349,6 +384,7 @@ def installed07(sim: Sim07) -> Iterator[None]:
             out = await orig_prc(**kw)
             inf["matched"] = bool(out[1])
             inf["t_out"] = loop.time()
+            inf["delays_out"] = [float(d) for d in out[0]]
             return out
         finally:
             rec.pop("_patch", None)
@@ -359,7 +395,10 @@ def installed07(sim: Sim07) -> Iterator[None]:
         inf = info()
         if inf is not None:
             inf["pcc_t"] = asyncio.get_running_loop().time()
-        return await orig_pcc(**kw)
+        out = await orig_pcc(**kw)
+        if inf is not None:
+            inf["changing_delays"] = [float(d) for d in (out or [])]
+        return out
 
     def sample_mid(rec: dict, where: str, force: bool) -> None:
         # The state the barrier finds: taken when the last low-level stage has ended (raw-event handlers, spawning);
@@ -394,6 +433,7 @@ def installed07(sim: Sim07) -> Iterator[None]:
         rec["c07"]["spawn_before_sleep"] = rec["c07"]["sleep"] is None
         out = await orig_psc(**kw)
         rec["c07"]["t_spawn1"] = asyncio.get_running_loop().time()
+        rec["c07"]["spawn_delays"] = [float(d) for d in (out or [])]
         if rec["c07"]["sleep"] is None and rec["c07"]["pcc_t"] is None:
             sample_mid(rec, "spawning", True)
         return out
@@ -465,6 +505,7 @@ def installed07(sim: Sim07) -> Iterator[None]:
         return out
 
     queueing.worker = worker  # type: ignore[assignment]
+    processing.process_resource_event = process_resource_event  # type: ignore[assignment]
     daemons.daemon_killer = daemon_killer  # type: ignore[assignment]
     wrappers = {"process_resource_causes": process_resource_causes, "process_changing_cause": process_changing_cause,
                 "process_watching_cause": process_watching_cause, "process_spawning_cause": process_spawning_cause,
@@ -481,6 +522,7 @@ def installed07(sim: Sim07) -> Iterator[None]:
         yield
     finally:
         queueing.worker = orig_worker  # type: ignore[assignment]
+        processing.process_resource_event = orig_pre  # type: ignore[assignment]
         daemons.daemon_killer = orig_killer  # type: ignore[assignment]
         for n, o in originals.items():
             if n not in missing:
